@@ -1618,7 +1618,28 @@ impl<'a, const C: usize, const R: usize, T: 'a + Copy + std::fmt::Debug> Layout<
     fn dequeue_overflow(&mut self, overflow: Queued) {
         // Actions waiting in the action queue (switch cases, decomposed chords) belong to events
         // that were processed before this one. Run them first, as `tick` does; otherwise a release
-        // processed here could come before the press it is meant to release.
+        // processed here could come before the press it is meant to release. They can start new
+        // waiting actions, which have to be forced into hold like the existing ones were.
+        let mut rounds = 0;
+        while (!self.action_queue.is_empty()
+            || self.waiting.is_some()
+            || !self.extra_waiting.is_empty())
+            && rounds < 64
+        {
+            rounds += 1;
+            self.run_action_queue_for_overflow();
+            // Forcing an extra waiting action removes it from its list, so always take the first.
+            if self.waiting.is_some() {
+                self.waiting_into_hold(-1);
+            } else if !self.extra_waiting.is_empty() {
+                self.waiting_into_hold(0);
+            }
+        }
+        if let CustomEvent::Release(value) = self.dequeue(overflow) {
+            let _ = self.states.push(State::SeqCustomActive(value));
+        }
+    }
+    fn run_action_queue_for_overflow(&mut self) {
         while let Some(Some((coord, delay, action, layer_stack))) = self.action_queue.pop_front() {
             let custom = match layer_stack {
                 Some(layer_stack) => {
@@ -1635,9 +1656,6 @@ impl<'a, const C: usize, const R: usize, T: 'a + Copy + std::fmt::Debug> Layout<
             if let CustomEvent::Release(value) = custom {
                 let _ = self.states.push(State::SeqCustomActive(value));
             }
-        }
-        if let CustomEvent::Release(value) = self.dequeue(overflow) {
-            let _ = self.states.push(State::SeqCustomActive(value));
         }
     }
     /// Resolve coordinate to first non-Trans actions.
